@@ -155,7 +155,15 @@ def check_src(rep, prog):
         items = list_items(I2, lst) or []
         reps = [i for i in items if i[0] == "rep"]
         okh = len(reps) == 2 or (len(reps) >= 1)
-        if reps:
+        one = reps[0] if len(reps) == 1 and len(items) == 1 else None
+        if one is not None and isinstance(one[2], Ite) and one[2].b == Const("00000000") and isinstance(one[1].trip, Op) and \
+                one[1].trip.op == "max" and len(one[1].trip.args) == 2 and Const(8) in one[1].trip.args and \
+                one[2].c in [compare(o_, x_, y_) for n_ in one[1].trip.args if n_ != Const(8)
+                             for o_, x_, y_ in (("lt", one[1].idx, n_), ("gt", n_, one[1].idx))]:
+            # one pass that yields word i while i < count and '00000000' from there up to max(count, 8) (zip_longest padding)
+            h = pelx.hex_render(one[2].a)
+            okh = h is not None and h["min_digits"] == 8 and h["upper"] and h["prefix"] == ""
+        elif reps:
             first = reps[0]
             h = pelx.hex_render(first[2])
             okh = okh and h is not None and h["min_digits"] == 8 and h["upper"] and h["prefix"] == ""
